@@ -46,6 +46,13 @@ class SuspendEx(Exception):
         super().__init__('suspend at %s (%s)' % (site, kind))
 
 
+class DivergeEx(Exception):
+    """The call depth bound was exceeded on a feasible path and the driver asked for that to be a path outcome (candidate non-termination)."""
+    def __init__(self, fn, node=None):
+        Exception.__init__(self, 'call depth bound exceeded in %s' % fn)
+        self.fn, self.node = fn, node
+
+
 class InfeasibleEx(Exception):
     pass
 
@@ -201,6 +208,9 @@ class Interp:
                     p = Path(list(self.pc), 'suspend', None, self.store, self.effects, self.frames, suspend=e)
                 except PanicEx as e:
                     p = Path(list(self.pc), 'panic', e, self.store, self.effects, self.frames)
+                except DivergeEx as e:
+                    p = Path(list(self.pc), 'diverge', e, self.store, self.effects, [])
+                    self.frames = []
                 if p.suspend is not None:
                     p.frames = p.suspend.frames
                 p.decisions = [t[0] for t in self.trail]
@@ -355,7 +365,9 @@ class Interp:
         for key, stub in self.stubs.items():
             if q == key or q.endswith('::' + key):
                 return stub(self, fd, args, self_arg, node)
-        if len(self.frames) > 60:
+        if len(self.frames) > getattr(self, 'depth_bound', 60):
+            if getattr(self, 'diverge_is_outcome', False):
+                raise DivergeEx(q, node)
             raise Unsupported('recursion depth exceeded (unwinding bound 60)', node)
         fr = Frame(fd, fd.module, fd.impl_ty)
         self.frames.append(fr)
